@@ -24,14 +24,18 @@ Cells == {"op.DefaultEndpoints", "op.DefaultSupportedClaims", "op.DefaultSupport
           \* a caller-owned interceptor chain handed to several constructors, and the order in which a router built from it earlier runs them
           "callerInterceptorChain", "routerA2.interceptorOrder",
           \* two providers with their own storages and signing keys whose key ids coincide: each signs with its own key
-          "providerA.tokenSignature", "providerB.tokenSignature"}
+          "providerA.tokenSignature", "providerB.tokenSignature",
+          \* one provider serving two tenants (issuer from the request host): each tenant honours the ID tokens issued under its own issuer and no others
+          "dynProvider.tenantA.ownHint", "dynProvider.tenantB.ownHint", "dynProvider.tenantB.foreignHint"}
 \* cells that have one right value at any time (o.unhealthy lists those that do not show it after the program)
-Healthy == {"callerInterceptorChain", "routerA2.interceptorOrder", "providerA.tokenSignature", "providerB.tokenSignature"}
+Healthy == {"callerInterceptorChain", "routerA2.interceptorOrder", "providerA.tokenSignature", "providerB.tokenSignature",
+            "dynProvider.tenantA.ownHint", "dynProvider.tenantB.ownHint", "dynProvider.tenantB.foreignHint"}
 
 Ops == {"op.NewProvider", "op.NewProvider+WithCustomAuthEndpoint", "op.NewProvider+WithCustomTokenEndpoint", "op.NewProvider+WithCustomIntrospectionEndpoint",
         "op.NewProvider+WithCustomUserinfoEndpoint", "op.NewProvider+WithCustomRevocationEndpoint", "op.NewProvider+WithCustomEndSessionEndpoint",
         "op.NewProvider+WithCustomKeysEndpoint", "op.NewProvider+WithCustomDeviceAuthorizationEndpoint", "op.NewProvider+WithCustomEndpoints",
-        "op.NewLegacyServer", "op.CreateRouter(callerChain)", "op.NewProvider+WithHttpInterceptors(callerChain)", "providerA.issueJWT", "providerB.issueJWT", "provider.serveAll", "legacy.serveAll", "provider.devicePoll",
+        "op.NewLegacyServer", "op.CreateRouter(callerChain)", "op.NewProvider+WithHttpInterceptors(callerChain)", "providerA.issueJWT", "providerB.issueJWT",
+        "dynProvider.logout(tenantA)", "dynProvider.logout(tenantB)", "rp.AuthURLHandler.serve(pkce)", "provider.serveAll", "legacy.serveAll", "provider.devicePoll",
         "rp.NewRelyingPartyOIDC(caller)", "rp.NewRelyingPartyOIDC(default)", "rp.EndSession(caller)", "rp.EndSession(default)", "rp.RevokeToken(caller)",
         "rp.RevokeToken(default)", "rp.Userinfo(caller)", "rp.RefreshTokens(caller)", "rp.CodeExchange(caller)", "client.Discover(caller)", "client.Discover(default)",
         "rs.Introspect(caller)", "tokenexchange.ExchangeToken(caller)"}
